@@ -212,7 +212,8 @@ theorem fixDir_neg_span (x span : ℚ) (h : span ≠ 0 ∨ x = 0) : fixDir x (-s
 
 theorem allocSteps_neg (a b : ℚ) : allocSteps (-a) (-b) = allocSteps a b := by
   unfold allocSteps
-  rw [neg_div_neg_eq]
+  have e : ∀ x : ℚ, HasTrunc.isInf x = false := fun _ => rfl
+  rw [neg_div_neg_eq, e, e]
 
 private theorem neg_sub_neg' (a b : ℚ) : -a - -b = -(a - b) := by ring
 
